@@ -57,6 +57,15 @@ more trees than bins raise, fewer are used silently); theorems C08_rebuild_over_
 _complete for the order invalidate, trees, marker; C08_keep_marker_stale / C08_marker_before_trees_stale (for ALL X <> Y) and
 C08_forced_rebuild_stale_refuted / C08_phase_orders_classified for the others.  Coq also decides, per traced rebuild, which
 disciplines explain its operation list (evidence: rebuild_disciplines) and the hypotheses of the theorems on the prior state.
+
+LARGE MARKERS (every tier; props/c08_marker.py).  patch_ids.bin holds 2 bytes per patch; written in place through a stdio stream a
+list of more than 2048 ids reaches the file in SEVERAL write system calls, and a process that dies between them leaves a valid
+shorter marker.  Real creations / overwrites of catalogs with 2040 .. 5000 patches (sizes on both sides of every 4096-byte
+boundary of the marker) run in a child interpreter that is killed at every such boundary (RLIMIT_FSIZE lowered right before
+CatalogWriter.finalize, SIGXFSZ); Catalog(cache) in a fresh interpreter must raise or hold ALL patches and records (overwrite:
+or the complete old catalog), never a subset.  Model: the id list is written aside (PTmp) and moved into place by ONE rename
+(fop Mv; theorems C08_create_marker_whole, C08_crash_safe_marker_last); written in place in two pieces some crash point opens
+as a strict subset (C08_marker_in_pieces_refuted); an empty marker left by an older version is refused (C08_empty_marker_refused).
 """
 import json
 import os
@@ -72,6 +81,7 @@ import numpy as np
 from crash import replay as rp
 from crash import trace as tr
 from props import c08_driver as drv
+from props import c08_marker
 
 ALLOWED_AXIOMS = []
 U_GRACE = 1.5        # seconds the processes a dead main process left behind get to finish on their own (interrupted runs)
@@ -103,6 +113,8 @@ ASSUMPTIONS = [
     "%.1f s to finish on their own and are killed then (a job whose main process never returns after ctrl-c is killed after its "
     "timeout); the directory is used after that, not while they are still writing.  Positions are python-level (k-th chunk request, "
     "k-th call of a function of the package), in the main process" % U_GRACE,
+    "large markers: the writing process dies when the marker file has reached a multiple of 4096 bytes (file size limit + SIGXFSZ): "
+    "between two of its write system calls, or after a write call that the limit cut short (reported as such)",
     "a later measurement = yaw.crosscorrelate with the recovered catalog as reference (binned request) or as unknown "
     "sample (unbinned request) against fixed untouched catalogs",
     "rebuilds: the earlier state is one an uninterrupted build_trees left (valid trees and marker on EVERY patch, or no trees); "
@@ -1786,6 +1798,14 @@ def run(ctx):
     W = Worker(ctx)
     scales, cases, ucases = [], [], []
     try:
+        # large markers first (children of their own, nothing else running; a random stream of its own so that the draws
+        # of the other families do not depend on it)
+        import random
+        main_rng, ctx.rng = ctx.rng, random.Random("C08-large-marker-%s-%s" % (ctx.seed, ctx.tier))
+        try:
+            c08_marker.run_large_marker(ctx)
+        finally:
+            ctx.rng = main_rng
         tags = ["s", "x"] if ctx.quick() else ["s", "m", "l", "x"]
         params = dict(SCALES, x=big_scale(ctx.rng))
         for tag in tags:
